@@ -6,8 +6,14 @@
 -/
 import CxVerif.Extracted.GlueSponge
 import CxVerif.Proofs.SpongePad
+import CxVerif.Proofs.Blake2
+set_option linter.unusedSimpArgs false
+set_option linter.unusedVariables false
 namespace Cx.Proofs.GlueSponge
-open Cx Cx.Impl.Sha3 Cx.Extracted.GlueSponge Cx.Extracted.GlueSponge.Sha3
+open Cx Cx.Extracted.GlueSponge
+
+section Sha3Part
+open Cx.Impl.Sha3 Cx.Extracted.GlueSponge.Sha3
 
 /-! ## generic facts -/
 
@@ -614,5 +620,1421 @@ theorem ctx_finalize_src_eq_model (dl : Nat) (c : Context) : Context.finalize_sr
   | some p => rfl
 
 theorem ctx_reset_src_eq_model (dl : Nat) (c : Context) : Context.reset_src dl c = some (Context.reset c) := rfl
+
+theorem alg_new_src_eq_model (dl : Nat) : Algorithm.new_src dl = some Context.new := rfl
+
+end Sha3Part
+
+/-! ## BLAKE2b / BLAKE2s: engines, `Context<BITS>`, `ContextDyn` -/
+
+section Blake2Part
+open Cx.Impl.Blake2
+open Cx.Impl.Sha3 (usizechk idx upd)
+open Cx.Proofs.Blake2 (Inv)
+
+/-! ### slices against the model's `setSlice` / `zeroFrom` -/
+
+theorem slice_take {a : Bytes} {n : Nat} (h : n ≤ a.length) : slice a 0 n = some (a.take n) := by
+  unfold slice; rw [if_pos ⟨by omega, h⟩]; simp
+
+theorem slice_to_end {a : Bytes} {lo : Nat} (h : lo ≤ a.length) : slice a lo a.length = some (a.drop lo) := by
+  unfold slice; rw [if_pos ⟨h, Nat.le_refl _⟩]
+  rw [List.take_of_length_le (by simp)]
+
+theorem sliceFrom_eq {a : Bytes} {lo : Nat} (h : lo ≤ a.length) : sliceFrom a lo = some (a.drop lo) := by
+  unfold sliceFrom; rw [if_pos h]
+
+theorem copyInto_setSlice {buf src : Bytes} {off hi : Nat} (hhi : hi = off + src.length) (h : off + src.length ≤ buf.length) :
+    copyInto buf off hi src = some (setSlice buf off src) := by
+  subst hhi
+  unfold copyInto setSlice; rw [if_pos ⟨by omega, h, by omega⟩]
+
+theorem copyInto_zeroFrom {buf : Bytes} {lo n : Nat} (h : lo ≤ buf.length) (hn : n = (buf.drop lo).length) :
+    copyInto buf lo buf.length (zeros n) = some (zeroFrom buf lo) := by
+  subst hn
+  unfold copyInto zeroFrom
+  rw [if_pos ⟨h, Nat.le_refl _, by simp [zeros]⟩]
+  simp
+
+theorem copyInto_all {dst src : Bytes} (h : src.length = dst.length) : copyInto dst 0 dst.length src = some src := by
+  unfold copyInto; rw [if_pos ⟨by omega, Nat.le_refl _, by omega⟩]; simp
+
+theorem copyInto_all_none {dst src : Bytes} (h : src.length ≠ dst.length) : copyInto dst 0 dst.length src = none := by
+  unfold copyInto; rw [if_neg (by omega)]
+
+/-- what the model's block loop leaves over fits the buffer -/
+theorem update_loop_rest {W : Type} [Cx.Spec.Blake2.Word W] (P : Cx.Spec.Blake2.Params W) (pr : Profile) (hbb : 0 < P.bb) :
+    ∀ (n : Nat) (e : Engine W) (input : Bytes) (e' : Engine W) (rest : Bytes), input.length ≤ n →
+      Ctx.update_loop P pr n e input = some (e', rest) → rest.length ≤ P.bb ∧ rest.length ≤ input.length := by
+  intro n
+  induction n with
+  | zero =>
+    intro e input e' rest hn h
+    simp only [Ctx.update_loop, Option.some.injEq, Prod.mk.injEq] at h
+    obtain ⟨_, rfl⟩ := h
+    omega
+  | succ n ih =>
+    intro e input e' rest hn h
+    rw [Ctx.update_loop] at h
+    split at h
+    · rename_i hgt
+      cases hinc : Engine.increment_counter pr e P.bb with
+      | none => simp [hinc] at h
+      | some e1 =>
+        simp only [hinc] at h
+        have := ih _ _ _ _ (by simp; omega) h
+        simp at this
+        omega
+    · simp only [Option.some.injEq, Prod.mk.injEq] at h
+      obtain ⟨_, rfl⟩ := h
+      omega
+
+namespace B
+open Cx.Extracted.GlueSponge.Blake2b
+
+theorem consts_src_eq_model : Engine.BLOCK_BYTES_src = b.bb ∧ Engine.MAX_OUTLEN_src = b.maxOut ∧ Engine.MAX_KEYLEN_src = b.maxKey ∧
+    Engine.BLOCK_BYTES_NATIVE_src = b.bb := ⟨rfl, rfl, rfl, by decide⟩
+
+theorem engine_new_src_eq_model (outlen keylen : Nat) : Engine.new_src outlen keylen = Engine.new b outlen keylen := by
+  unfold Engine.new_src Engine.new
+  by_cases h1 : outlen > 0 <;> by_cases h2 : outlen ≤ b.maxOut <;> by_cases h3 : keylen ≤ b.maxKey <;> simp [h1, h2, h3] <;> rfl
+
+theorem engine_reset_src_eq_model (e : Engine UInt64) (outlen keylen : Nat) :
+    Engine.reset_src e outlen keylen = some (Engine.reset b e outlen keylen) := rfl
+
+theorem engine_increment_counter_src_eq_model (e : Engine UInt64) (inc : Nat) :
+    Engine.increment_counter_src e inc = Engine.increment_counter .wrapping e inc := rfl
+
+
+theorem bb_eq : b.bb = 128 := rfl
+theorem maxOut_eq : b.maxOut = 64 := rfl
+theorem maxKey_eq : b.maxKey = 64 := rfl
+
+theorem ctx_new_keyed_src_eq_model (BITS : Nat) (key : Bytes) : Context.new_keyed_src BITS key = Context.new_keyed b BITS key := by
+  unfold Context.new_keyed_src Context.new_keyed Ctx.new_keyed Context.outlen
+  simp only [consts_src_eq_model.1, consts_src_eq_model.2.1, consts_src_eq_model.2.2.1]
+  by_cases hB : BITS + 7 < 2 ^ 64
+  · simp only [usizechk_lt hB, Option.bind_eq_bind, Option.bind_some, Option.pure_def, engine_new_src_eq_model]
+    by_cases h1 : BITS > 0
+    · by_cases h2 : (BITS + 7) / 8 ≤ b.maxOut
+      · by_cases h3 : key.length ≤ b.maxKey
+        · have h4 : (BITS + 7) / 8 > 0 := by omega
+          simp only [h1, h2, h3, h4, and_self, not_true_eq_false, if_false]
+          cases Engine.new b ((BITS + 7) / 8) key.length with
+          | none => rfl
+          | some eng =>
+            simp only [Option.bind_some]
+            by_cases hk : key.isEmpty = true
+            · simp [hk]
+            · have : copyInto (zeros b.bb) 0 key.length key = some (setSlice (zeros b.bb) 0 key) :=
+                copyInto_setSlice (by simp) (by rw [maxKey_eq] at h3; simp [zeros, bb_eq]; omega)
+              simp [hk, this]
+        · simp [h1, h2, h3]
+      · simp [h1, h2]
+    · simp [h1]
+  · have : ¬ (BITS + 7) / 8 ≤ b.maxOut := by rw [maxOut_eq]; omega
+    have h' : usizechk (BITS + 7) = none := by unfold usizechk; rw [if_neg (by omega)]
+    by_cases h1 : BITS > 0 <;> simp [h1, this, h']
+
+
+theorem ctx_new_src_eq_model (BITS : Nat) : Context.new_src BITS = Context.new b BITS := by
+  unfold Context.new_src Context.new Context.outlen
+  simp only [consts_src_eq_model.2.1, ctx_new_keyed_src_eq_model]
+  by_cases hB : BITS + 7 < 2 ^ 64
+  · simp only [usizechk_lt hB, Option.bind_eq_bind, Option.bind_some, Option.pure_def]
+    by_cases h1 : BITS > 0 <;> by_cases h2 : (BITS + 7) / 8 ≤ b.maxOut <;> simp [h1, h2]
+  · have : ¬ (BITS + 7) / 8 ≤ b.maxOut := by rw [maxOut_eq]; omega
+    have h' : usizechk (BITS + 7) = none := by unfold usizechk; rw [if_neg (by omega)]
+    by_cases h1 : BITS > 0 <;> simp [h1, this, h']
+
+/-- the `while input.len() > BLOCK_BYTES` loop of `update_mut` against the model's fuel recursion -/
+theorem ctx_update_loop_eq (BITS fill : Nat) : ∀ (m n : Nat) (c : Ctx UInt64) (input : Bytes), input.length < m → input.length ≤ n →
+    whileLoop (Context.update_mut_src_while1 BITS fill) m (c, input) =
+      (Ctx.update_loop b .wrapping n c.eng input).bind fun p => some ({ c with eng := p.1 }, p.2) := by
+  intro m
+  induction m with
+  | zero => intro n c input h; omega
+  | succ m ih =>
+    intro n c input hm hn
+    rw [whileLoop]
+    simp only [Context.update_mut_src_while1, consts_src_eq_model.1, consts_src_eq_model.2.2.2, engine_increment_counter_src_eq_model,
+      Option.bind_eq_bind, Option.pure_def]
+    by_cases hlen : input.length > b.bb
+    · have hbb := bb_eq
+      cases n with
+      | zero => omega
+      | succ n =>
+        rw [Ctx.update_loop]
+        simp only [hlen, if_true]
+        cases hinc : Engine.increment_counter Profile.wrapping c.eng b.bb with
+        | none => simp
+        | some e1 =>
+          simp only [Option.bind_some, slice_take (Nat.le_of_lt hlen), sliceFrom_eq (Nat.le_of_lt hlen)]
+          rw [ih n _ _ (by simp; omega) (by simp; omega)]
+    · simp only [hlen, if_false, Option.bind_some]
+      cases n with
+      | zero => simp [Ctx.update_loop]
+      | succ n => simp [Ctx.update_loop, hlen]
+
+
+theorem ctx_update_mut_src_eq_model (BITS : Nat) (c : Ctx UInt64) (input : Bytes) (hi : Inv b c) :
+    Context.update_mut_src BITS c input = Context.update_mut b .wrapping c input := by
+  obtain ⟨hbl, hle⟩ := hi
+  have hbb := bb_eq
+  unfold Context.update_mut_src Context.update_mut Ctx.update_mut
+  simp only [consts_src_eq_model.1, consts_src_eq_model.2.2.2, engine_increment_counter_src_eq_model, Option.bind_eq_bind,
+    Option.pure_def]
+  by_cases he : input.isEmpty = true
+  · simp [he]
+  · simp only [he, if_false, usub_le hle, Option.bind_some, Bool.false_eq_true]
+    by_cases hfill : input.length > b.bb - c.buflen
+    · simp only [hfill, if_true]
+      have h1 : slice input 0 (b.bb - c.buflen) = some (input.take (b.bb - c.buflen)) := slice_take (Nat.le_of_lt hfill)
+      have h2 : usizechk (c.buflen + (b.bb - c.buflen)) = some (c.buflen + (b.bb - c.buflen)) := usizechk_lt (by omega)
+      have h3 : copyInto c.buf c.buflen (c.buflen + (b.bb - c.buflen)) (input.take (b.bb - c.buflen)) =
+          some (setSlice c.buf c.buflen (input.take (b.bb - c.buflen))) :=
+        copyInto_setSlice (by simp; omega) (by simp; omega)
+      simp only [h1, h2, h3, Option.bind_some]
+      cases hinc : Engine.increment_counter Profile.wrapping c.eng b.bb with
+      | none => simp
+      | some e1 =>
+        have hsl : (setSlice c.buf c.buflen (input.take (b.bb - c.buflen))).length = c.buf.length :=
+          Cx.Proofs.Blake2.setSlice_length _ _ _ (by simp; omega)
+        simp only [Option.bind_some, slice_take (show b.bb ≤ (setSlice c.buf c.buflen (input.take (b.bb - c.buflen))).length by omega),
+          sliceFrom_eq (Nat.le_of_lt hfill)]
+        rw [ctx_update_loop_eq BITS (b.bb - c.buflen) _ (input.drop (b.bb - c.buflen)).length _ _ (by omega) (Nat.le_refl _)]
+        cases hloop : Ctx.update_loop b Profile.wrapping (input.drop (b.bb - c.buflen)).length
+            (Engine.compress b e1 (List.take b.bb (setSlice c.buf c.buflen (input.take (b.bb - c.buflen)))) LastBlock.No)
+            (input.drop (b.bb - c.buflen)) with
+        | none => simp
+        | some p =>
+          obtain ⟨e2, rest⟩ := p
+          have hrest := update_loop_rest b Profile.wrapping (by decide) _ _ _ _ _ (Nat.le_refl _) hloop
+          have h5 : usizechk (0 + rest.length) = some (0 + rest.length) := usizechk_lt (by omega)
+          have h6 : copyInto (setSlice c.buf c.buflen (input.take (b.bb - c.buflen))) 0 (0 + rest.length) rest =
+              some (setSlice (setSlice c.buf c.buflen (input.take (b.bb - c.buflen))) 0 rest) :=
+            copyInto_setSlice rfl (by omega)
+          simp only [Option.bind_some, h5, h6]
+    · simp only [hfill, if_false, Option.bind_some]
+      have h2 : usizechk (c.buflen + input.length) = some (c.buflen + input.length) := usizechk_lt (by omega)
+      have h3 : copyInto c.buf c.buflen (c.buflen + input.length) input = some (setSlice c.buf c.buflen input) :=
+        copyInto_setSlice rfl (by omega)
+      simp only [h2, h3, Option.bind_some]
+
+
+theorem ctx_update_src_eq_model (BITS : Nat) (c : Ctx UInt64) (input : Bytes) (hi : Inv b c) :
+    Context.update_src BITS c input = Context.update b .wrapping c input := by
+  unfold Context.update_src Context.update
+  rw [ctx_update_mut_src_eq_model BITS c input hi]
+  unfold Context.update_mut
+  cases Ctx.update_mut b Profile.wrapping c input <;> rfl
+
+theorem toLE_eq_u64le : (Cx.Spec.Blake2.toLE : UInt64 → Bytes) = u64le := rfl
+
+theorem ctx_internal_final_src_eq_model (BITS : Nat) (c : Ctx UInt64) (hi : Inv b c) :
+    Context.internal_final_src BITS c = Ctx.internal_final b .wrapping c := by
+  obtain ⟨hbl, hle⟩ := hi
+  have hbb := bb_eq
+  unfold Context.internal_final_src Ctx.internal_final
+  simp only [consts_src_eq_model.1, engine_increment_counter_src_eq_model, Option.bind_eq_bind, Option.pure_def]
+  have hw : Cx.Spec.Blake2.Word.bits UInt64 = 64 := rfl
+  rw [hw]
+  cases hinc : Engine.increment_counter Profile.wrapping c.eng (c.buflen % 2 ^ 64) with
+  | none => rfl
+  | some e1 =>
+    have hzl : (zeroFrom c.buf c.buflen).length = c.buf.length := Cx.Proofs.Blake2.zeroFrom_length _ _ (by omega)
+    simp only [Option.bind_some, slice_to_end (show c.buflen ≤ c.buf.length by omega),
+      copyInto_zeroFrom (show c.buflen ≤ c.buf.length by omega) rfl,
+      slice_take (show b.bb ≤ (zeroFrom c.buf c.buflen).length by omega),
+      slice_take (show 64 ≤ (zeroFrom c.buf c.buflen).length by omega)]
+    have hlen : ((Engine.compress b e1 (List.take b.bb (zeroFrom c.buf c.buflen)) LastBlock.Yes).h.toList.flatMap u64le).length = 64 := by
+      rw [← toLE_eq_u64le, Cx.Proofs.Blake2.hbytes_length]; rfl
+    have hw8 : write_u64v_le (List.take 64 (zeroFrom c.buf c.buflen))
+        (Engine.compress b e1 (List.take b.bb (zeroFrom c.buf c.buflen)) LastBlock.Yes).h.toList =
+        some ((Engine.compress b e1 (List.take b.bb (zeroFrom c.buf c.buflen)) LastBlock.Yes).h.toList.flatMap u64le) := by
+      unfold write_u64v_le
+      rw [if_pos (by simp; omega)]
+    simp only [hw8, Option.bind_some]
+    rw [copyInto_setSlice (by rw [hlen]) (by rw [hlen]; omega)]
+    rfl
+
+
+theorem zero_all (buf : Bytes) : (slice buf 0 buf.length).bind (fun t => copyInto buf 0 buf.length (zeros t.length)) = some (zeroFrom buf 0) := by
+  rw [slice_to_end (Nat.zero_le _)]
+  simp only [Option.bind_some]
+  exact copyInto_zeroFrom (Nat.zero_le _) rfl
+
+theorem ctx_reset_src_eq_model (BITS : Nat) (c : Ctx UInt64) (hB : BITS + 7 < 2 ^ 64) :
+    Context.reset_src BITS c = some (Context.reset b BITS c) := by
+  unfold Context.reset_src Context.reset Ctx.reset Context.outlen
+  have hz := zero_all c.buf
+  rw [slice_to_end (Nat.zero_le _)] at hz
+  simp only [Option.bind_some] at hz
+  simp only [usizechk_lt hB, engine_reset_src_eq_model, Option.bind_eq_bind, Option.bind_some, Option.pure_def,
+    slice_to_end (Nat.zero_le _), hz]
+
+theorem ctx_reset_with_key_src_eq_model (BITS : Nat) (c : Ctx UInt64) (key : Bytes) (hi : Inv b c) (hB : BITS + 7 < 2 ^ 64) :
+    Context.reset_with_key_src BITS c key = Context.reset_with_key b BITS c key := by
+  obtain ⟨hbl, hle⟩ := hi
+  have hbb := bb_eq
+  unfold Context.reset_with_key_src Context.reset_with_key Ctx.reset_with_key Context.outlen
+  have hz := zero_all c.buf
+  rw [slice_to_end (Nat.zero_le _)] at hz
+  simp only [Option.bind_some] at hz
+  simp only [usizechk_lt hB, engine_reset_src_eq_model, Option.bind_eq_bind, Option.bind_some, Option.pure_def,
+    slice_to_end (Nat.zero_le _), hz, consts_src_eq_model.1, consts_src_eq_model.2.2.1]
+  by_cases hk : key.length ≤ b.maxKey
+  · simp only [hk, not_true_eq_false, if_false]
+    by_cases hke : key.isEmpty = true
+    · simp [hke]
+    · have hzl : (zeroFrom c.buf 0).length = c.buf.length := Cx.Proofs.Blake2.zeroFrom_length _ _ (by omega)
+      have : copyInto (zeroFrom c.buf 0) 0 key.length key = some (setSlice (zeroFrom c.buf 0) 0 key) :=
+        copyInto_setSlice (by simp) (by rw [maxKey_eq] at hk; omega)
+      simp [hke, this]
+  · simp [hk]
+
+/-- shape of the buffer after the model's `internal_final` -/
+theorem internal_final_shape (c c' : Ctx UInt64) (hi : Inv b c) (h : Ctx.internal_final b .wrapping c = some c') : Inv b c' := by
+  obtain ⟨hbl, hle⟩ := hi
+  have hbb := bb_eq
+  unfold Ctx.internal_final at h
+  split at h
+  · cases h
+  · cases h
+    have hzl : (zeroFrom c.buf c.buflen).length = c.buf.length := Cx.Proofs.Blake2.zeroFrom_length _ _ (by omega)
+    refine ⟨?_, hle⟩
+    show (setSlice _ 0 _).length = _
+    rw [Cx.Proofs.Blake2.setSlice_length _ _ _ (by rw [Cx.Proofs.Blake2.hbytes_length]; show 0 + 8 * 8 ≤ _; omega), hzl, hbl]
+
+theorem ctx_finalize_at_src_eq_model (BITS : Nat) (c : Ctx UInt64) (out : Bytes) (hi : Inv b c) (hB : (BITS + 7) / 8 ≤ b.maxOut) :
+    Context.finalize_at_src BITS c out = Context.finalize_at b .wrapping BITS c out.length := by
+  have hmo := maxOut_eq
+  have hbb := bb_eq
+  unfold Context.finalize_at_src Context.finalize_at Ctx.finalize_at Context.outlen
+  simp only [usizechk_lt (show BITS + 7 < 2 ^ 64 by omega), ctx_internal_final_src_eq_model BITS c hi, Option.bind_eq_bind,
+    Option.bind_some, Option.pure_def]
+  by_cases hl : out.length = (BITS + 7) / 8
+  · simp only [hl, not_true_eq_false, if_false, ne_eq]
+    cases hf : Ctx.internal_final b Profile.wrapping c with
+    | none => rfl
+    | some c' =>
+      have hi' := internal_final_shape c c' hi hf
+      simp only [Option.bind_some]
+      rw [← hl, slice_take (by rw [hi'.1]; omega)]
+      simp only [Option.bind_some]
+      rw [copyInto_all (by simp; rw [hi'.1]; omega)]
+  · simp [hl]
+
+
+/-- the common prefix of the three `finalize_*_at`: assert, `internal_final`, copy the digest out -/
+theorem ctx_finalize_prefix (c : Ctx UInt64) (out : Bytes) (hi : Inv b c) (hB : out.length ≤ b.maxOut) (c' : Ctx UInt64)
+    (hf : Ctx.internal_final b .wrapping c = some c') :
+    (slice c'.buf 0 out.length).bind (fun t3 => copyInto out 0 out.length t3) = some (c'.buf.take out.length) := by
+  have hmo := maxOut_eq
+  have hbb := bb_eq
+  have hi' := internal_final_shape c c' hi hf
+  rw [slice_take (by rw [hi'.1]; omega)]
+  simp only [Option.bind_some]
+  rw [copyInto_all (by simp; rw [hi'.1]; omega)]
+
+theorem ctx_finalize_reset_at_src_eq_model (BITS : Nat) (c : Ctx UInt64) (out : Bytes) (hi : Inv b c) (hB : (BITS + 7) / 8 ≤ b.maxOut) :
+    Context.finalize_reset_at_src BITS c out = Context.finalize_reset_at b .wrapping BITS c out.length := by
+  have hmo := maxOut_eq
+  unfold Context.finalize_reset_at_src Context.finalize_reset_at Ctx.finalize_reset_at Context.outlen
+  simp only [usizechk_lt (show BITS + 7 < 2 ^ 64 by omega), ctx_internal_final_src_eq_model BITS c hi, Option.bind_eq_bind,
+    Option.bind_some, Option.pure_def]
+  by_cases hl : out.length = (BITS + 7) / 8
+  · simp only [hl, not_true_eq_false, if_false, ne_eq]
+    cases hf : Ctx.internal_final b Profile.wrapping c with
+    | none => rfl
+    | some c' =>
+      have hp := ctx_finalize_prefix c out hi (by omega) c' hf
+      rw [hl] at hp
+      simp only [Option.bind_some]
+      cases hs : slice c'.buf 0 ((BITS + 7) / 8) with
+      | none => simp [hs] at hp
+      | some t3 =>
+        simp only [hs, Option.bind_some] at hp
+        simp only [Option.bind_some, hp, ctx_reset_src_eq_model BITS c' (by omega)]
+        rfl
+  · simp [hl]
+
+theorem ctx_finalize_reset_with_key_at_src_eq_model (BITS : Nat) (c : Ctx UInt64) (key out : Bytes) (hi : Inv b c)
+    (hB : (BITS + 7) / 8 ≤ b.maxOut) :
+    Context.finalize_reset_with_key_at_src BITS c key out = Context.finalize_reset_with_key_at b .wrapping BITS c key out.length := by
+  have hmo := maxOut_eq
+  unfold Context.finalize_reset_with_key_at_src Context.finalize_reset_with_key_at Ctx.finalize_reset_with_key_at Context.outlen
+  simp only [usizechk_lt (show BITS + 7 < 2 ^ 64 by omega), ctx_internal_final_src_eq_model BITS c hi, Option.bind_eq_bind,
+    Option.bind_some, Option.pure_def]
+  by_cases hl : out.length = (BITS + 7) / 8
+  · simp only [hl, not_true_eq_false, if_false, ne_eq]
+    cases hf : Ctx.internal_final b Profile.wrapping c with
+    | none => rfl
+    | some c' =>
+      have hp := ctx_finalize_prefix c out hi (by omega) c' hf
+      have hi' := internal_final_shape c c' hi hf
+      rw [hl] at hp
+      simp only [Option.bind_some]
+      cases hs : slice c'.buf 0 ((BITS + 7) / 8) with
+      | none => simp [hs] at hp
+      | some t3 =>
+        simp only [hs, Option.bind_some] at hp
+        simp only [Option.bind_some, hp, ctx_reset_with_key_src_eq_model BITS c' key hi' (by omega)]
+        unfold Context.reset_with_key Context.outlen
+        cases Ctx.reset_with_key b c' ((BITS + 7) / 8) key <;> rfl
+  · simp [hl]
+
+theorem ctx_finalize_src_eq_model (BITS : Nat) (c : Ctx UInt64) (hi : Inv b c) (hB : (BITS + 7) / 8 ≤ b.maxOut) :
+    Context.finalize_src BITS c = Context.finalize b .wrapping BITS c := by
+  unfold Context.finalize_src Context.finalize
+  simp only [ctx_finalize_at_src_eq_model BITS c _ hi hB, Cx.Proofs.Blake2.length_zeros]
+
+theorem ctx_finalize_reset_src_eq_model (BITS : Nat) (c : Ctx UInt64) (hi : Inv b c) (hB : (BITS + 7) / 8 ≤ b.maxOut) :
+    Context.finalize_reset_src BITS c = Context.finalize_reset b .wrapping BITS c := by
+  unfold Context.finalize_reset_src Context.finalize_reset
+  simp only [ctx_finalize_reset_at_src_eq_model BITS c _ hi hB, Option.bind_eq_bind, Option.pure_def, Cx.Proofs.Blake2.length_zeros]
+  cases Context.finalize_reset_at b Profile.wrapping BITS c (BITS / 8) <;> rfl
+
+theorem ctx_finalize_reset_with_key_src_eq_model (BITS : Nat) (c : Ctx UInt64) (key : Bytes) (hi : Inv b c)
+    (hB : (BITS + 7) / 8 ≤ b.maxOut) :
+    Context.finalize_reset_with_key_src BITS c key = Context.finalize_reset_with_key b .wrapping BITS c key := by
+  unfold Context.finalize_reset_with_key_src Context.finalize_reset_with_key
+  simp only [ctx_finalize_reset_with_key_at_src_eq_model BITS c key _ hi hB, Option.bind_eq_bind, Option.pure_def,
+    Cx.Proofs.Blake2.length_zeros]
+  cases Context.finalize_reset_with_key_at b Profile.wrapping BITS c key (BITS / 8) <;> rfl
+
+
+/-! ### the invariant `Inv` (`buf` is the whole block array, `buflen ≤ BLOCK_BYTES`) is established by `new_keyed` and preserved -/
+
+theorem ctx_new_keyed_inv (n : Nat) (key : Bytes) (c : Ctx UInt64) (h : Ctx.new_keyed b n key = some c) : Inv b c := by
+  have hbb := bb_eq
+  have hmk := maxKey_eq
+  unfold Ctx.new_keyed at h
+  split at h
+  · cases h
+  · split at h
+    · cases h
+    · rename_i hk
+      split at h
+      · cases h
+      · split at h
+        · cases h
+          refine ⟨?_, Nat.le_refl _⟩
+          show (setSlice _ 0 key).length = _
+          rw [Cx.Proofs.Blake2.setSlice_length _ _ _ (by simp [zeros]; omega)]
+          simp [zeros]
+        · cases h
+          exact ⟨by simp [zeros], Nat.zero_le _⟩
+
+theorem ctx_update_mut_inv (c c' : Ctx UInt64) (input : Bytes) (hi : Inv b c) (h : Ctx.update_mut b .wrapping c input = some c') :
+    Inv b c' := by
+  obtain ⟨hbl, hle⟩ := hi
+  have hbb := bb_eq
+  unfold Ctx.update_mut at h
+  by_cases he : input.isEmpty = true
+  · rw [if_pos he] at h; cases h; exact ⟨hbl, hle⟩
+  · rw [if_neg he] at h
+    by_cases hfill : input.length > b.bb - c.buflen
+    · simp only [hfill, if_true] at h
+      cases hinc : Engine.increment_counter Profile.wrapping c.eng b.bb with
+      | none => simp [hinc] at h
+      | some e1 =>
+        simp only [hinc] at h
+        have hsl : (setSlice c.buf c.buflen (input.take (b.bb - c.buflen))).length = c.buf.length :=
+          Cx.Proofs.Blake2.setSlice_length _ _ _ (by simp; omega)
+        split at h
+        · cases h
+        · rename_i e2 rest hloop
+          have hrest := update_loop_rest b Profile.wrapping (by decide) _ _ _ _ _ (Nat.le_refl _) hloop
+          cases h
+          refine ⟨?_, by show 0 + rest.length ≤ _; omega⟩
+          show (setSlice _ 0 rest).length = _
+          rw [Cx.Proofs.Blake2.setSlice_length _ _ _ (by omega), hsl, hbl]
+    · simp only [hfill, if_false] at h
+      cases h
+      refine ⟨?_, by show c.buflen + input.length ≤ _; omega⟩
+      show (setSlice _ _ input).length = _
+      rw [Cx.Proofs.Blake2.setSlice_length _ _ _ (by omega), hbl]
+
+theorem ctx_reset_inv (c : Ctx UInt64) (n : Nat) (hi : Inv b c) : Inv b (Ctx.reset b c n) := by
+  refine ⟨?_, Nat.zero_le _⟩
+  show (zeroFrom c.buf 0).length = _
+  rw [Cx.Proofs.Blake2.zeroFrom_length _ _ (Nat.zero_le _), hi.1]
+
+theorem ctx_reset_with_key_inv (c c' : Ctx UInt64) (n : Nat) (key : Bytes) (hi : Inv b c)
+    (h : Ctx.reset_with_key b c n key = some c') : Inv b c' := by
+  have hbb := bb_eq
+  have hmk := maxKey_eq
+  unfold Ctx.reset_with_key at h
+  split at h
+  · cases h
+  · split at h
+    · cases h
+      have hzl : (zeroFrom c.buf 0).length = c.buf.length := Cx.Proofs.Blake2.zeroFrom_length _ _ (Nat.zero_le _)
+      refine ⟨?_, Nat.le_refl _⟩
+      show (setSlice _ 0 key).length = _
+      rw [Cx.Proofs.Blake2.setSlice_length _ _ _ (by have := hi.1; omega), hzl, hi.1]
+    · cases h
+      exact ⟨by simp [zeros], Nat.zero_le _⟩
+
+
+/-! ### `ContextDyn` -/
+
+/-- invariant of `ContextDyn`: the buffer invariant and `outlen ≤ MAX_OUTLEN` (asserted by `new`/`new_keyed`, never changed) -/
+def DynInv (d : ContextDyn UInt64) : Prop := Inv b d.ctx ∧ d.outlen ≤ b.maxOut
+
+theorem dyn_new_keyed_src_eq_model (n : Nat) (key : Bytes) : ContextDyn.new_keyed_src n key = ContextDyn.new_keyed b n key := by
+  unfold ContextDyn.new_keyed_src ContextDyn.new_keyed Ctx.new_keyed
+  simp only [consts_src_eq_model.1, consts_src_eq_model.2.1, consts_src_eq_model.2.2.1, Option.bind_eq_bind, Option.pure_def,
+    engine_new_src_eq_model]
+  by_cases h1 : n > 0
+  · by_cases h2 : n ≤ b.maxOut
+    · by_cases h3 : key.length ≤ b.maxKey
+      · simp only [h1, h2, h3, and_self, not_true_eq_false, if_false]
+        cases Engine.new b n key.length with
+        | none => rfl
+        | some eng =>
+          simp only [Option.bind_some]
+          by_cases hk : key.isEmpty = true
+          · simp [hk]
+          · have : copyInto (zeros b.bb) 0 key.length key = some (setSlice (zeros b.bb) 0 key) :=
+              copyInto_setSlice (by simp) (by rw [maxKey_eq] at h3; simp [zeros, bb_eq]; omega)
+            simp [hk, this]
+      · simp [h1, h2, h3]
+    · simp [h1, h2]
+  · simp [h1]
+
+theorem dyn_new_src_eq_model (n : Nat) : ContextDyn.new_src n = ContextDyn.new b n := by
+  unfold ContextDyn.new_src ContextDyn.new
+  simp only [consts_src_eq_model.2.1, dyn_new_keyed_src_eq_model, Option.bind_eq_bind, Option.pure_def]
+  by_cases h1 : n > 0 <;> by_cases h2 : n ≤ b.maxOut <;> simp [h1, h2]
+
+theorem dyn_update_loop_eq (fill : Nat) : ∀ (m n : Nat) (d : ContextDyn UInt64) (input : Bytes), input.length < m → input.length ≤ n →
+    whileLoop (ContextDyn.update_mut_src_while1 fill) m (d, input) =
+      (Ctx.update_loop b .wrapping n d.ctx.eng input).bind fun p => some ({ d with ctx := { d.ctx with eng := p.1 } }, p.2) := by
+  intro m
+  induction m with
+  | zero => intro n c input h; omega
+  | succ m ih =>
+    intro n d input hm hn
+    rw [whileLoop]
+    simp only [ContextDyn.update_mut_src_while1, consts_src_eq_model.1, consts_src_eq_model.2.2.2, engine_increment_counter_src_eq_model,
+      Option.bind_eq_bind, Option.pure_def]
+    by_cases hlen : input.length > b.bb
+    · have hbb := bb_eq
+      cases n with
+      | zero => omega
+      | succ n =>
+        rw [Ctx.update_loop]
+        simp only [hlen, if_true]
+        cases hinc : Engine.increment_counter Profile.wrapping d.ctx.eng b.bb with
+        | none => simp
+        | some e1 =>
+          simp only [Option.bind_some, slice_take (Nat.le_of_lt hlen), sliceFrom_eq (Nat.le_of_lt hlen)]
+          rw [ih n _ _ (by simp; omega) (by simp; omega)]
+    · simp only [hlen, if_false, Option.bind_some]
+      cases n with
+      | zero => simp [Ctx.update_loop]
+      | succ n => simp [Ctx.update_loop, hlen]
+
+theorem dyn_update_mut_src_eq_model (d : ContextDyn UInt64) (input : Bytes) (hi : DynInv d) :
+    ContextDyn.update_mut_src d input = ContextDyn.update_mut b .wrapping d input := by
+  obtain ⟨⟨hbl, hle⟩, _⟩ := hi
+  have hbb := bb_eq
+  unfold ContextDyn.update_mut_src ContextDyn.update_mut Ctx.update_mut
+  simp only [consts_src_eq_model.1, consts_src_eq_model.2.2.2, engine_increment_counter_src_eq_model, Option.bind_eq_bind,
+    Option.pure_def]
+  by_cases he : input.isEmpty = true
+  · simp [he]
+  · simp only [he, if_false, usub_le hle, Option.bind_some, Bool.false_eq_true]
+    by_cases hfill : input.length > b.bb - d.ctx.buflen
+    · simp only [hfill, if_true]
+      have h1 : slice input 0 (b.bb - d.ctx.buflen) = some (input.take (b.bb - d.ctx.buflen)) := slice_take (Nat.le_of_lt hfill)
+      have h2 : usizechk (d.ctx.buflen + (b.bb - d.ctx.buflen)) = some (d.ctx.buflen + (b.bb - d.ctx.buflen)) := usizechk_lt (by omega)
+      have h3 : copyInto d.ctx.buf d.ctx.buflen (d.ctx.buflen + (b.bb - d.ctx.buflen)) (input.take (b.bb - d.ctx.buflen)) =
+          some (setSlice d.ctx.buf d.ctx.buflen (input.take (b.bb - d.ctx.buflen))) :=
+        copyInto_setSlice (by simp; omega) (by simp; omega)
+      simp only [h1, h2, h3, Option.bind_some]
+      cases hinc : Engine.increment_counter Profile.wrapping d.ctx.eng b.bb with
+      | none => simp
+      | some e1 =>
+        have hsl : (setSlice d.ctx.buf d.ctx.buflen (input.take (b.bb - d.ctx.buflen))).length = d.ctx.buf.length :=
+          Cx.Proofs.Blake2.setSlice_length _ _ _ (by simp; omega)
+        simp only [Option.bind_some,
+          slice_take (show b.bb ≤ (setSlice d.ctx.buf d.ctx.buflen (input.take (b.bb - d.ctx.buflen))).length by omega),
+          sliceFrom_eq (Nat.le_of_lt hfill)]
+        rw [dyn_update_loop_eq (b.bb - d.ctx.buflen) _ (input.drop (b.bb - d.ctx.buflen)).length _ _ (by omega) (Nat.le_refl _)]
+        cases hloop : Ctx.update_loop b Profile.wrapping (input.drop (b.bb - d.ctx.buflen)).length
+            (Engine.compress b e1 (List.take b.bb (setSlice d.ctx.buf d.ctx.buflen (input.take (b.bb - d.ctx.buflen)))) LastBlock.No)
+            (input.drop (b.bb - d.ctx.buflen)) with
+        | none => simp
+        | some p =>
+          obtain ⟨e2, rest⟩ := p
+          have hrest := update_loop_rest b Profile.wrapping (by decide) _ _ _ _ _ (Nat.le_refl _) hloop
+          have h5 : usizechk (0 + rest.length) = some (0 + rest.length) := usizechk_lt (by omega)
+          have h6 : copyInto (setSlice d.ctx.buf d.ctx.buflen (input.take (b.bb - d.ctx.buflen))) 0 (0 + rest.length) rest =
+              some (setSlice (setSlice d.ctx.buf d.ctx.buflen (input.take (b.bb - d.ctx.buflen))) 0 rest) :=
+            copyInto_setSlice rfl (by omega)
+          simp only [Option.bind_some, h5, h6]
+    · simp only [hfill, if_false, Option.bind_some]
+      have h2 : usizechk (d.ctx.buflen + input.length) = some (d.ctx.buflen + input.length) := usizechk_lt (by omega)
+      have h3 : copyInto d.ctx.buf d.ctx.buflen (d.ctx.buflen + input.length) input = some (setSlice d.ctx.buf d.ctx.buflen input) :=
+        copyInto_setSlice rfl (by omega)
+      simp only [h2, h3, Option.bind_some]
+
+
+theorem dyn_update_src_eq_model (d : ContextDyn UInt64) (input : Bytes) (hi : DynInv d) :
+    ContextDyn.update_src d input = ContextDyn.update b .wrapping d input := by
+  unfold ContextDyn.update_src ContextDyn.update
+  rw [dyn_update_mut_src_eq_model d input hi]
+
+theorem dyn_internal_final_src_eq_model (d : ContextDyn UInt64) (hi : DynInv d) :
+    ContextDyn.internal_final_src d = (Ctx.internal_final b .wrapping d.ctx).bind fun x => some { d with ctx := x } := by
+  obtain ⟨⟨hbl, hle⟩, _⟩ := hi
+  have hbb := bb_eq
+  unfold ContextDyn.internal_final_src Ctx.internal_final
+  simp only [consts_src_eq_model.1, engine_increment_counter_src_eq_model, Option.bind_eq_bind, Option.pure_def]
+  have hw : Cx.Spec.Blake2.Word.bits UInt64 = 64 := rfl
+  rw [hw]
+  cases hinc : Engine.increment_counter Profile.wrapping d.ctx.eng (d.ctx.buflen % 2 ^ 64) with
+  | none => rfl
+  | some e1 =>
+    have hzl : (zeroFrom d.ctx.buf d.ctx.buflen).length = d.ctx.buf.length := Cx.Proofs.Blake2.zeroFrom_length _ _ (by omega)
+    simp only [Option.bind_some, slice_to_end (show d.ctx.buflen ≤ d.ctx.buf.length by omega),
+      copyInto_zeroFrom (show d.ctx.buflen ≤ d.ctx.buf.length by omega) rfl,
+      slice_take (show b.bb ≤ (zeroFrom d.ctx.buf d.ctx.buflen).length by omega),
+      slice_take (show 64 ≤ (zeroFrom d.ctx.buf d.ctx.buflen).length by omega)]
+    have hlen : ((Engine.compress b e1 (List.take b.bb (zeroFrom d.ctx.buf d.ctx.buflen)) LastBlock.Yes).h.toList.flatMap u64le).length = 64 := by
+      rw [← toLE_eq_u64le, Cx.Proofs.Blake2.hbytes_length]; rfl
+    have hw8 : write_u64v_le (List.take 64 (zeroFrom d.ctx.buf d.ctx.buflen))
+        (Engine.compress b e1 (List.take b.bb (zeroFrom d.ctx.buf d.ctx.buflen)) LastBlock.Yes).h.toList =
+        some ((Engine.compress b e1 (List.take b.bb (zeroFrom d.ctx.buf d.ctx.buflen)) LastBlock.Yes).h.toList.flatMap u64le) := by
+      unfold write_u64v_le
+      rw [if_pos (by simp; omega)]
+    simp only [hw8, Option.bind_some]
+    rw [copyInto_setSlice (by rw [hlen]) (by rw [hlen]; omega)]
+    rfl
+
+theorem dyn_reset_src_eq_model (d : ContextDyn UInt64) : ContextDyn.reset_src d = some (ContextDyn.reset b d) := by
+  unfold ContextDyn.reset_src ContextDyn.reset Ctx.reset
+  have hz := zero_all d.ctx.buf
+  rw [slice_to_end (Nat.zero_le _)] at hz
+  simp only [Option.bind_some] at hz
+  simp only [engine_reset_src_eq_model, Option.bind_eq_bind, Option.bind_some, Option.pure_def, slice_to_end (Nat.zero_le _), hz]
+
+theorem dyn_reset_with_key_src_eq_model (d : ContextDyn UInt64) (key : Bytes) (hi : DynInv d) :
+    ContextDyn.reset_with_key_src d key = ContextDyn.reset_with_key b d key := by
+  obtain ⟨⟨hbl, hle⟩, _⟩ := hi
+  have hbb := bb_eq
+  unfold ContextDyn.reset_with_key_src ContextDyn.reset_with_key Ctx.reset_with_key
+  have hz := zero_all d.ctx.buf
+  rw [slice_to_end (Nat.zero_le _)] at hz
+  simp only [Option.bind_some] at hz
+  simp only [engine_reset_src_eq_model, Option.bind_eq_bind, Option.bind_some, Option.pure_def,
+    slice_to_end (Nat.zero_le _), hz, consts_src_eq_model.1, consts_src_eq_model.2.2.1]
+  by_cases hk : key.length ≤ b.maxKey
+  · simp only [hk, not_true_eq_false, if_false]
+    by_cases hke : key.isEmpty = true
+    · simp [hke]
+    · have hzl : (zeroFrom d.ctx.buf 0).length = d.ctx.buf.length := Cx.Proofs.Blake2.zeroFrom_length _ _ (by omega)
+      have : copyInto (zeroFrom d.ctx.buf 0) 0 key.length key = some (setSlice (zeroFrom d.ctx.buf 0) 0 key) :=
+        copyInto_setSlice (by simp) (by rw [maxKey_eq] at hk; omega)
+      simp [hke, this]
+  · simp [hk]
+
+theorem dyn_finalize_at_src_eq_model (d : ContextDyn UInt64) (out : Bytes) (hi : DynInv d) :
+    ContextDyn.finalize_at_src d out = ContextDyn.finalize_at b .wrapping d out.length := by
+  have hmo := maxOut_eq
+  unfold ContextDyn.finalize_at_src ContextDyn.finalize_at Ctx.finalize_at
+  simp only [dyn_internal_final_src_eq_model d hi, Option.bind_eq_bind, Option.bind_some, Option.pure_def]
+  by_cases hl : out.length = d.outlen
+  · simp only [hl, not_true_eq_false, if_false, ne_eq]
+    cases hf : Ctx.internal_final b Profile.wrapping d.ctx with
+    | none => rfl
+    | some c' =>
+      have hp := ctx_finalize_prefix d.ctx out hi.1 (by have := hi.2; omega) c' hf
+      rw [hl] at hp
+      simp only [Option.bind_some]
+      cases hs : slice c'.buf 0 d.outlen with
+      | none => simp [hs] at hp
+      | some t3 =>
+        simp only [hs, Option.bind_some] at hp
+        simp only [Option.bind_some, hp]
+  · simp [hl]
+
+theorem dyn_finalize_reset_at_src_eq_model (d : ContextDyn UInt64) (out : Bytes) (hi : DynInv d) :
+    ContextDyn.finalize_reset_at_src d out = ContextDyn.finalize_reset_at b .wrapping d out.length := by
+  have hmo := maxOut_eq
+  unfold ContextDyn.finalize_reset_at_src ContextDyn.finalize_reset_at Ctx.finalize_reset_at
+  simp only [dyn_internal_final_src_eq_model d hi, Option.bind_eq_bind, Option.bind_some, Option.pure_def]
+  by_cases hl : out.length = d.outlen
+  · simp only [hl, not_true_eq_false, if_false, ne_eq]
+    cases hf : Ctx.internal_final b Profile.wrapping d.ctx with
+    | none => rfl
+    | some c' =>
+      have hp := ctx_finalize_prefix d.ctx out hi.1 (by have := hi.2; omega) c' hf
+      rw [hl] at hp
+      simp only [Option.bind_some]
+      cases hs : slice c'.buf 0 d.outlen with
+      | none => simp [hs] at hp
+      | some t3 =>
+        simp only [hs, Option.bind_some] at hp
+        simp only [Option.bind_some, hp, dyn_reset_src_eq_model]
+        rfl
+  · simp [hl]
+
+theorem dyn_finalize_reset_with_key_at_src_eq_model (d : ContextDyn UInt64) (key out : Bytes) (hi : DynInv d) :
+    ContextDyn.finalize_reset_with_key_at_src d key out = ContextDyn.finalize_reset_with_key_at b .wrapping d key out.length := by
+  have hmo := maxOut_eq
+  unfold ContextDyn.finalize_reset_with_key_at_src ContextDyn.finalize_reset_with_key_at Ctx.finalize_reset_with_key_at
+  simp only [dyn_internal_final_src_eq_model d hi, Option.bind_eq_bind, Option.bind_some, Option.pure_def]
+  by_cases hl : out.length = d.outlen
+  · simp only [hl, not_true_eq_false, if_false, ne_eq]
+    cases hf : Ctx.internal_final b Profile.wrapping d.ctx with
+    | none => rfl
+    | some c' =>
+      have hp := ctx_finalize_prefix d.ctx out hi.1 (by have := hi.2; omega) c' hf
+      have hi' := internal_final_shape d.ctx c' hi.1 hf
+      rw [hl] at hp
+      simp only [Option.bind_some]
+      cases hs : slice c'.buf 0 d.outlen with
+      | none => simp [hs] at hp
+      | some t3 =>
+        simp only [hs, Option.bind_some] at hp
+        have hd' : DynInv { d with ctx := c' } := ⟨hi', hi.2⟩
+        simp only [Option.bind_some, hp, dyn_reset_with_key_src_eq_model _ key hd']
+        unfold ContextDyn.reset_with_key
+        cases Ctx.reset_with_key b c' d.outlen key <;> rfl
+  · simp [hl]
+
+theorem dyn_output_bits_src_eq_model (d : ContextDyn UInt64) (hi : DynInv d) :
+    ContextDyn.output_bits_src d = some (ContextDyn.output_bits d) := by
+  have hmo := maxOut_eq
+  unfold ContextDyn.output_bits_src ContextDyn.output_bits
+  have := hi.2
+  simp [usizechk_lt (show d.outlen * 8 < 2 ^ 64 by omega)]
+
+
+theorem dyn_new_keyed_inv (n : Nat) (key : Bytes) (d : ContextDyn UInt64) (h : ContextDyn.new_keyed b n key = some d) : DynInv d := by
+  unfold ContextDyn.new_keyed at h
+  cases hc : Ctx.new_keyed b n key with
+  | none => simp [hc] at h
+  | some c =>
+    simp only [hc, Option.some.injEq] at h
+    subst h
+    refine ⟨ctx_new_keyed_inv n key c hc, ?_⟩
+    show n ≤ b.maxOut
+    unfold Ctx.new_keyed at hc
+    split at hc
+    · cases hc
+    · rename_i hn; simp at hn; exact hn.2
+
+theorem dyn_update_mut_inv (d d' : ContextDyn UInt64) (input : Bytes) (hi : DynInv d)
+    (h : ContextDyn.update_mut b .wrapping d input = some d') : DynInv d' := by
+  unfold ContextDyn.update_mut at h
+  cases hc : Ctx.update_mut b .wrapping d.ctx input with
+  | none => simp [hc] at h
+  | some c =>
+    simp only [hc, Option.some.injEq] at h
+    subst h
+    exact ⟨ctx_update_mut_inv d.ctx c input hi.1 hc, hi.2⟩
+
+theorem dyn_reset_inv (d : ContextDyn UInt64) (hi : DynInv d) : DynInv (ContextDyn.reset b d) :=
+  ⟨ctx_reset_inv d.ctx d.outlen hi.1, hi.2⟩
+
+theorem dyn_reset_with_key_inv (d d' : ContextDyn UInt64) (key : Bytes) (hi : DynInv d)
+    (h : ContextDyn.reset_with_key b d key = some d') : DynInv d' := by
+  unfold ContextDyn.reset_with_key at h
+  cases hc : Ctx.reset_with_key b d.ctx d.outlen key with
+  | none => simp [hc] at h
+  | some c =>
+    simp only [hc, Option.some.injEq] at h
+    subst h
+    exact ⟨ctx_reset_with_key_inv d.ctx c d.outlen key hi.1 hc, hi.2⟩
+
+theorem alg_new_src_eq_model (BITS : Nat) : Algorithm.new_src BITS = Context.new b BITS := by
+  unfold Algorithm.new_src
+  rw [ctx_new_src_eq_model]
+
+theorem alg_new_keyed_src_eq_model (BITS : Nat) (key : Bytes) : Algorithm.new_keyed_src BITS key = Context.new_keyed b BITS key := by
+  unfold Algorithm.new_keyed_src
+  rw [ctx_new_keyed_src_eq_model]
+
+end B
+
+namespace S
+open Cx.Extracted.GlueSponge.Blake2s
+
+theorem consts_src_eq_model : Engine.BLOCK_BYTES_src = s.bb ∧ Engine.MAX_OUTLEN_src = s.maxOut ∧ Engine.MAX_KEYLEN_src = s.maxKey ∧
+    Engine.BLOCK_BYTES_NATIVE_src = s.bb := ⟨rfl, rfl, rfl, by decide⟩
+
+theorem engine_new_src_eq_model (outlen keylen : Nat) : Engine.new_src outlen keylen = Engine.new s outlen keylen := by
+  unfold Engine.new_src Engine.new
+  by_cases h1 : outlen > 0 <;> by_cases h2 : outlen ≤ s.maxOut <;> by_cases h3 : keylen ≤ s.maxKey <;> simp [h1, h2, h3] <;> rfl
+
+theorem engine_reset_src_eq_model (e : Engine UInt32) (outlen keylen : Nat) :
+    Engine.reset_src e outlen keylen = some (Engine.reset s e outlen keylen) := rfl
+
+theorem engine_increment_counter_src_eq_model (e : Engine UInt32) (inc : Nat) :
+    Engine.increment_counter_src e inc = Engine.increment_counter .wrapping e inc := rfl
+
+
+theorem bb_eq : s.bb = 64 := rfl
+theorem maxOut_eq : s.maxOut = 32 := rfl
+theorem maxKey_eq : s.maxKey = 32 := rfl
+
+theorem ctx_new_keyed_src_eq_model (BITS : Nat) (key : Bytes) : Context.new_keyed_src BITS key = Context.new_keyed s BITS key := by
+  unfold Context.new_keyed_src Context.new_keyed Ctx.new_keyed Context.outlen
+  simp only [consts_src_eq_model.1, consts_src_eq_model.2.1, consts_src_eq_model.2.2.1]
+  by_cases hB : BITS + 7 < 2 ^ 64
+  · simp only [usizechk_lt hB, Option.bind_eq_bind, Option.bind_some, Option.pure_def, engine_new_src_eq_model]
+    by_cases h1 : BITS > 0
+    · by_cases h2 : (BITS + 7) / 8 ≤ s.maxOut
+      · by_cases h3 : key.length ≤ s.maxKey
+        · have h4 : (BITS + 7) / 8 > 0 := by omega
+          simp only [h1, h2, h3, h4, and_self, not_true_eq_false, if_false]
+          cases Engine.new s ((BITS + 7) / 8) key.length with
+          | none => rfl
+          | some eng =>
+            simp only [Option.bind_some]
+            by_cases hk : key.isEmpty = true
+            · simp [hk]
+            · have : copyInto (zeros s.bb) 0 key.length key = some (setSlice (zeros s.bb) 0 key) :=
+                copyInto_setSlice (by simp) (by rw [maxKey_eq] at h3; simp [zeros, bb_eq]; omega)
+              simp [hk, this]
+        · simp [h1, h2, h3]
+      · simp [h1, h2]
+    · simp [h1]
+  · have : ¬ (BITS + 7) / 8 ≤ s.maxOut := by rw [maxOut_eq]; omega
+    have h' : usizechk (BITS + 7) = none := by unfold usizechk; rw [if_neg (by omega)]
+    by_cases h1 : BITS > 0 <;> simp [h1, this, h']
+
+
+theorem ctx_new_src_eq_model (BITS : Nat) : Context.new_src BITS = Context.new s BITS := by
+  unfold Context.new_src Context.new Context.outlen
+  simp only [consts_src_eq_model.2.1, ctx_new_keyed_src_eq_model]
+  by_cases hB : BITS + 7 < 2 ^ 64
+  · simp only [usizechk_lt hB, Option.bind_eq_bind, Option.bind_some, Option.pure_def]
+    by_cases h1 : BITS > 0 <;> by_cases h2 : (BITS + 7) / 8 ≤ s.maxOut <;> simp [h1, h2]
+  · have : ¬ (BITS + 7) / 8 ≤ s.maxOut := by rw [maxOut_eq]; omega
+    have h' : usizechk (BITS + 7) = none := by unfold usizechk; rw [if_neg (by omega)]
+    by_cases h1 : BITS > 0 <;> simp [h1, this, h']
+
+/-- the `while input.len() > BLOCK_BYTES` loop of `update_mut` against the model's fuel recursion -/
+theorem ctx_update_loop_eq (BITS fill : Nat) : ∀ (m n : Nat) (c : Ctx UInt32) (input : Bytes), input.length < m → input.length ≤ n →
+    whileLoop (Context.update_mut_src_while1 BITS fill) m (c, input) =
+      (Ctx.update_loop s .wrapping n c.eng input).bind fun p => some ({ c with eng := p.1 }, p.2) := by
+  intro m
+  induction m with
+  | zero => intro n c input h; omega
+  | succ m ih =>
+    intro n c input hm hn
+    rw [whileLoop]
+    simp only [Context.update_mut_src_while1, consts_src_eq_model.1, consts_src_eq_model.2.2.2, engine_increment_counter_src_eq_model,
+      Option.bind_eq_bind, Option.pure_def]
+    by_cases hlen : input.length > s.bb
+    · have hbb := bb_eq
+      cases n with
+      | zero => omega
+      | succ n =>
+        rw [Ctx.update_loop]
+        simp only [hlen, if_true]
+        cases hinc : Engine.increment_counter Profile.wrapping c.eng s.bb with
+        | none => simp
+        | some e1 =>
+          simp only [Option.bind_some, slice_take (Nat.le_of_lt hlen), sliceFrom_eq (Nat.le_of_lt hlen)]
+          rw [ih n _ _ (by simp; omega) (by simp; omega)]
+    · simp only [hlen, if_false, Option.bind_some]
+      cases n with
+      | zero => simp [Ctx.update_loop]
+      | succ n => simp [Ctx.update_loop, hlen]
+
+
+theorem ctx_update_mut_src_eq_model (BITS : Nat) (c : Ctx UInt32) (input : Bytes) (hi : Inv s c) :
+    Context.update_mut_src BITS c input = Context.update_mut s .wrapping c input := by
+  obtain ⟨hbl, hle⟩ := hi
+  have hbb := bb_eq
+  unfold Context.update_mut_src Context.update_mut Ctx.update_mut
+  simp only [consts_src_eq_model.1, consts_src_eq_model.2.2.2, engine_increment_counter_src_eq_model, Option.bind_eq_bind,
+    Option.pure_def]
+  by_cases he : input.isEmpty = true
+  · simp [he]
+  · simp only [he, if_false, usub_le hle, Option.bind_some, Bool.false_eq_true]
+    by_cases hfill : input.length > s.bb - c.buflen
+    · simp only [hfill, if_true]
+      have h1 : slice input 0 (s.bb - c.buflen) = some (input.take (s.bb - c.buflen)) := slice_take (Nat.le_of_lt hfill)
+      have h2 : usizechk (c.buflen + (s.bb - c.buflen)) = some (c.buflen + (s.bb - c.buflen)) := usizechk_lt (by omega)
+      have h3 : copyInto c.buf c.buflen (c.buflen + (s.bb - c.buflen)) (input.take (s.bb - c.buflen)) =
+          some (setSlice c.buf c.buflen (input.take (s.bb - c.buflen))) :=
+        copyInto_setSlice (by simp; omega) (by simp; omega)
+      simp only [h1, h2, h3, Option.bind_some]
+      cases hinc : Engine.increment_counter Profile.wrapping c.eng s.bb with
+      | none => simp
+      | some e1 =>
+        have hsl : (setSlice c.buf c.buflen (input.take (s.bb - c.buflen))).length = c.buf.length :=
+          Cx.Proofs.Blake2.setSlice_length _ _ _ (by simp; omega)
+        simp only [Option.bind_some, slice_take (show s.bb ≤ (setSlice c.buf c.buflen (input.take (s.bb - c.buflen))).length by omega),
+          sliceFrom_eq (Nat.le_of_lt hfill)]
+        rw [ctx_update_loop_eq BITS (s.bb - c.buflen) _ (input.drop (s.bb - c.buflen)).length _ _ (by omega) (Nat.le_refl _)]
+        cases hloop : Ctx.update_loop s Profile.wrapping (input.drop (s.bb - c.buflen)).length
+            (Engine.compress s e1 (List.take s.bb (setSlice c.buf c.buflen (input.take (s.bb - c.buflen)))) LastBlock.No)
+            (input.drop (s.bb - c.buflen)) with
+        | none => simp
+        | some p =>
+          obtain ⟨e2, rest⟩ := p
+          have hrest := update_loop_rest s Profile.wrapping (by decide) _ _ _ _ _ (Nat.le_refl _) hloop
+          have h5 : usizechk (0 + rest.length) = some (0 + rest.length) := usizechk_lt (by omega)
+          have h6 : copyInto (setSlice c.buf c.buflen (input.take (s.bb - c.buflen))) 0 (0 + rest.length) rest =
+              some (setSlice (setSlice c.buf c.buflen (input.take (s.bb - c.buflen))) 0 rest) :=
+            copyInto_setSlice rfl (by omega)
+          simp only [Option.bind_some, h5, h6]
+    · simp only [hfill, if_false, Option.bind_some]
+      have h2 : usizechk (c.buflen + input.length) = some (c.buflen + input.length) := usizechk_lt (by omega)
+      have h3 : copyInto c.buf c.buflen (c.buflen + input.length) input = some (setSlice c.buf c.buflen input) :=
+        copyInto_setSlice rfl (by omega)
+      simp only [h2, h3, Option.bind_some]
+
+
+theorem ctx_update_src_eq_model (BITS : Nat) (c : Ctx UInt32) (input : Bytes) (hi : Inv s c) :
+    Context.update_src BITS c input = Context.update s .wrapping c input := by
+  unfold Context.update_src Context.update
+  rw [ctx_update_mut_src_eq_model BITS c input hi]
+  unfold Context.update_mut
+  cases Ctx.update_mut s Profile.wrapping c input <;> rfl
+
+theorem toLE_eq_u32le : (Cx.Spec.Blake2.toLE : UInt32 → Bytes) = u32le := rfl
+
+theorem ctx_internal_final_src_eq_model (BITS : Nat) (c : Ctx UInt32) (hi : Inv s c) :
+    Context.internal_final_src BITS c = Ctx.internal_final s .wrapping c := by
+  obtain ⟨hbl, hle⟩ := hi
+  have hbb := bb_eq
+  unfold Context.internal_final_src Ctx.internal_final
+  simp only [consts_src_eq_model.1, engine_increment_counter_src_eq_model, Option.bind_eq_bind, Option.pure_def]
+  have hw : Cx.Spec.Blake2.Word.bits UInt32 = 32 := rfl
+  rw [hw]
+  cases hinc : Engine.increment_counter Profile.wrapping c.eng (c.buflen % 2 ^ 32) with
+  | none => rfl
+  | some e1 =>
+    have hzl : (zeroFrom c.buf c.buflen).length = c.buf.length := Cx.Proofs.Blake2.zeroFrom_length _ _ (by omega)
+    simp only [Option.bind_some, slice_to_end (show c.buflen ≤ c.buf.length by omega),
+      copyInto_zeroFrom (show c.buflen ≤ c.buf.length by omega) rfl,
+      slice_take (show s.bb ≤ (zeroFrom c.buf c.buflen).length by omega),
+      slice_take (show 32 ≤ (zeroFrom c.buf c.buflen).length by omega)]
+    have hlen : ((Engine.compress s e1 (List.take s.bb (zeroFrom c.buf c.buflen)) LastBlock.Yes).h.toList.flatMap u32le).length = 32 := by
+      rw [← toLE_eq_u32le, Cx.Proofs.Blake2.hbytes_length]; rfl
+    have hw8 : write_u32v_le (List.take 32 (zeroFrom c.buf c.buflen))
+        (Engine.compress s e1 (List.take s.bb (zeroFrom c.buf c.buflen)) LastBlock.Yes).h.toList =
+        some ((Engine.compress s e1 (List.take s.bb (zeroFrom c.buf c.buflen)) LastBlock.Yes).h.toList.flatMap u32le) := by
+      unfold write_u32v_le
+      rw [if_pos (by simp; omega)]
+    simp only [hw8, Option.bind_some]
+    rw [copyInto_setSlice (by rw [hlen]) (by rw [hlen]; omega)]
+    rfl
+
+
+theorem zero_all (buf : Bytes) : (slice buf 0 buf.length).bind (fun t => copyInto buf 0 buf.length (zeros t.length)) = some (zeroFrom buf 0) := by
+  rw [slice_to_end (Nat.zero_le _)]
+  simp only [Option.bind_some]
+  exact copyInto_zeroFrom (Nat.zero_le _) rfl
+
+theorem ctx_reset_src_eq_model (BITS : Nat) (c : Ctx UInt32) (hB : BITS + 7 < 2 ^ 64) :
+    Context.reset_src BITS c = some (Context.reset s BITS c) := by
+  unfold Context.reset_src Context.reset Ctx.reset Context.outlen
+  have hz := zero_all c.buf
+  rw [slice_to_end (Nat.zero_le _)] at hz
+  simp only [Option.bind_some] at hz
+  simp only [usizechk_lt hB, engine_reset_src_eq_model, Option.bind_eq_bind, Option.bind_some, Option.pure_def,
+    slice_to_end (Nat.zero_le _), hz]
+
+theorem ctx_reset_with_key_src_eq_model (BITS : Nat) (c : Ctx UInt32) (key : Bytes) (hi : Inv s c) (hB : BITS + 7 < 2 ^ 64) :
+    Context.reset_with_key_src BITS c key = Context.reset_with_key s BITS c key := by
+  obtain ⟨hbl, hle⟩ := hi
+  have hbb := bb_eq
+  unfold Context.reset_with_key_src Context.reset_with_key Ctx.reset_with_key Context.outlen
+  have hz := zero_all c.buf
+  rw [slice_to_end (Nat.zero_le _)] at hz
+  simp only [Option.bind_some] at hz
+  simp only [usizechk_lt hB, engine_reset_src_eq_model, Option.bind_eq_bind, Option.bind_some, Option.pure_def,
+    slice_to_end (Nat.zero_le _), hz, consts_src_eq_model.1, consts_src_eq_model.2.2.1]
+  by_cases hk : key.length ≤ s.maxKey
+  · simp only [hk, not_true_eq_false, if_false]
+    by_cases hke : key.isEmpty = true
+    · simp [hke]
+    · have hzl : (zeroFrom c.buf 0).length = c.buf.length := Cx.Proofs.Blake2.zeroFrom_length _ _ (by omega)
+      have : copyInto (zeroFrom c.buf 0) 0 key.length key = some (setSlice (zeroFrom c.buf 0) 0 key) :=
+        copyInto_setSlice (by simp) (by rw [maxKey_eq] at hk; omega)
+      simp [hke, this]
+  · simp [hk]
+
+/-- shape of the buffer after the model's `internal_final` -/
+theorem internal_final_shape (c c' : Ctx UInt32) (hi : Inv s c) (h : Ctx.internal_final s .wrapping c = some c') : Inv s c' := by
+  obtain ⟨hbl, hle⟩ := hi
+  have hbb := bb_eq
+  unfold Ctx.internal_final at h
+  split at h
+  · cases h
+  · cases h
+    have hzl : (zeroFrom c.buf c.buflen).length = c.buf.length := Cx.Proofs.Blake2.zeroFrom_length _ _ (by omega)
+    refine ⟨?_, hle⟩
+    show (setSlice _ 0 _).length = _
+    rw [Cx.Proofs.Blake2.setSlice_length _ _ _ (by rw [Cx.Proofs.Blake2.hbytes_length]; show 0 + 8 * 4 ≤ _; omega), hzl, hbl]
+
+theorem ctx_finalize_at_src_eq_model (BITS : Nat) (c : Ctx UInt32) (out : Bytes) (hi : Inv s c) (hB : (BITS + 7) / 8 ≤ s.maxOut) :
+    Context.finalize_at_src BITS c out = Context.finalize_at s .wrapping BITS c out.length := by
+  have hmo := maxOut_eq
+  have hbb := bb_eq
+  unfold Context.finalize_at_src Context.finalize_at Ctx.finalize_at Context.outlen
+  simp only [usizechk_lt (show BITS + 7 < 2 ^ 64 by omega), ctx_internal_final_src_eq_model BITS c hi, Option.bind_eq_bind,
+    Option.bind_some, Option.pure_def]
+  by_cases hl : out.length = (BITS + 7) / 8
+  · simp only [hl, not_true_eq_false, if_false, ne_eq]
+    cases hf : Ctx.internal_final s Profile.wrapping c with
+    | none => rfl
+    | some c' =>
+      have hi' := internal_final_shape c c' hi hf
+      simp only [Option.bind_some]
+      rw [← hl, slice_take (by rw [hi'.1]; omega)]
+      simp only [Option.bind_some]
+      rw [copyInto_all (by simp; rw [hi'.1]; omega)]
+  · simp [hl]
+
+
+/-- the common prefix of the three `finalize_*_at`: assert, `internal_final`, copy the digest out -/
+theorem ctx_finalize_prefix (c : Ctx UInt32) (out : Bytes) (hi : Inv s c) (hB : out.length ≤ s.maxOut) (c' : Ctx UInt32)
+    (hf : Ctx.internal_final s .wrapping c = some c') :
+    (slice c'.buf 0 out.length).bind (fun t3 => copyInto out 0 out.length t3) = some (c'.buf.take out.length) := by
+  have hmo := maxOut_eq
+  have hbb := bb_eq
+  have hi' := internal_final_shape c c' hi hf
+  rw [slice_take (by rw [hi'.1]; omega)]
+  simp only [Option.bind_some]
+  rw [copyInto_all (by simp; rw [hi'.1]; omega)]
+
+theorem ctx_finalize_reset_at_src_eq_model (BITS : Nat) (c : Ctx UInt32) (out : Bytes) (hi : Inv s c) (hB : (BITS + 7) / 8 ≤ s.maxOut) :
+    Context.finalize_reset_at_src BITS c out = Context.finalize_reset_at s .wrapping BITS c out.length := by
+  have hmo := maxOut_eq
+  unfold Context.finalize_reset_at_src Context.finalize_reset_at Ctx.finalize_reset_at Context.outlen
+  simp only [usizechk_lt (show BITS + 7 < 2 ^ 64 by omega), ctx_internal_final_src_eq_model BITS c hi, Option.bind_eq_bind,
+    Option.bind_some, Option.pure_def]
+  by_cases hl : out.length = (BITS + 7) / 8
+  · simp only [hl, not_true_eq_false, if_false, ne_eq]
+    cases hf : Ctx.internal_final s Profile.wrapping c with
+    | none => rfl
+    | some c' =>
+      have hp := ctx_finalize_prefix c out hi (by omega) c' hf
+      rw [hl] at hp
+      simp only [Option.bind_some]
+      cases hs : slice c'.buf 0 ((BITS + 7) / 8) with
+      | none => simp [hs] at hp
+      | some t3 =>
+        simp only [hs, Option.bind_some] at hp
+        simp only [Option.bind_some, hp, ctx_reset_src_eq_model BITS c' (by omega)]
+        rfl
+  · simp [hl]
+
+theorem ctx_finalize_reset_with_key_at_src_eq_model (BITS : Nat) (c : Ctx UInt32) (key out : Bytes) (hi : Inv s c)
+    (hB : (BITS + 7) / 8 ≤ s.maxOut) :
+    Context.finalize_reset_with_key_at_src BITS c key out = Context.finalize_reset_with_key_at s .wrapping BITS c key out.length := by
+  have hmo := maxOut_eq
+  unfold Context.finalize_reset_with_key_at_src Context.finalize_reset_with_key_at Ctx.finalize_reset_with_key_at Context.outlen
+  simp only [usizechk_lt (show BITS + 7 < 2 ^ 64 by omega), ctx_internal_final_src_eq_model BITS c hi, Option.bind_eq_bind,
+    Option.bind_some, Option.pure_def]
+  by_cases hl : out.length = (BITS + 7) / 8
+  · simp only [hl, not_true_eq_false, if_false, ne_eq]
+    cases hf : Ctx.internal_final s Profile.wrapping c with
+    | none => rfl
+    | some c' =>
+      have hp := ctx_finalize_prefix c out hi (by omega) c' hf
+      have hi' := internal_final_shape c c' hi hf
+      rw [hl] at hp
+      simp only [Option.bind_some]
+      cases hs : slice c'.buf 0 ((BITS + 7) / 8) with
+      | none => simp [hs] at hp
+      | some t3 =>
+        simp only [hs, Option.bind_some] at hp
+        simp only [Option.bind_some, hp, ctx_reset_with_key_src_eq_model BITS c' key hi' (by omega)]
+        unfold Context.reset_with_key Context.outlen
+        cases Ctx.reset_with_key s c' ((BITS + 7) / 8) key <;> rfl
+  · simp [hl]
+
+theorem ctx_finalize_src_eq_model (BITS : Nat) (c : Ctx UInt32) (hi : Inv s c) (hB : (BITS + 7) / 8 ≤ s.maxOut) :
+    Context.finalize_src BITS c = Context.finalize s .wrapping BITS c := by
+  unfold Context.finalize_src Context.finalize
+  simp only [ctx_finalize_at_src_eq_model BITS c _ hi hB, Cx.Proofs.Blake2.length_zeros]
+
+theorem ctx_finalize_reset_src_eq_model (BITS : Nat) (c : Ctx UInt32) (hi : Inv s c) (hB : (BITS + 7) / 8 ≤ s.maxOut) :
+    Context.finalize_reset_src BITS c = Context.finalize_reset s .wrapping BITS c := by
+  unfold Context.finalize_reset_src Context.finalize_reset
+  simp only [ctx_finalize_reset_at_src_eq_model BITS c _ hi hB, Option.bind_eq_bind, Option.pure_def, Cx.Proofs.Blake2.length_zeros]
+  cases Context.finalize_reset_at s Profile.wrapping BITS c (BITS / 8) <;> rfl
+
+theorem ctx_finalize_reset_with_key_src_eq_model (BITS : Nat) (c : Ctx UInt32) (key : Bytes) (hi : Inv s c)
+    (hB : (BITS + 7) / 8 ≤ s.maxOut) :
+    Context.finalize_reset_with_key_src BITS c key = Context.finalize_reset_with_key s .wrapping BITS c key := by
+  unfold Context.finalize_reset_with_key_src Context.finalize_reset_with_key
+  simp only [ctx_finalize_reset_with_key_at_src_eq_model BITS c key _ hi hB, Option.bind_eq_bind, Option.pure_def,
+    Cx.Proofs.Blake2.length_zeros]
+  cases Context.finalize_reset_with_key_at s Profile.wrapping BITS c key (BITS / 8) <;> rfl
+
+
+/-! ### the invariant `Inv` (`buf` is the whole block array, `buflen ≤ BLOCK_BYTES`) is established by `new_keyed` and preserved -/
+
+theorem ctx_new_keyed_inv (n : Nat) (key : Bytes) (c : Ctx UInt32) (h : Ctx.new_keyed s n key = some c) : Inv s c := by
+  have hbb := bb_eq
+  have hmk := maxKey_eq
+  unfold Ctx.new_keyed at h
+  split at h
+  · cases h
+  · split at h
+    · cases h
+    · rename_i hk
+      split at h
+      · cases h
+      · split at h
+        · cases h
+          refine ⟨?_, Nat.le_refl _⟩
+          show (setSlice _ 0 key).length = _
+          rw [Cx.Proofs.Blake2.setSlice_length _ _ _ (by simp [zeros]; omega)]
+          simp [zeros]
+        · cases h
+          exact ⟨by simp [zeros], Nat.zero_le _⟩
+
+theorem ctx_update_mut_inv (c c' : Ctx UInt32) (input : Bytes) (hi : Inv s c) (h : Ctx.update_mut s .wrapping c input = some c') :
+    Inv s c' := by
+  obtain ⟨hbl, hle⟩ := hi
+  have hbb := bb_eq
+  unfold Ctx.update_mut at h
+  by_cases he : input.isEmpty = true
+  · rw [if_pos he] at h; cases h; exact ⟨hbl, hle⟩
+  · rw [if_neg he] at h
+    by_cases hfill : input.length > s.bb - c.buflen
+    · simp only [hfill, if_true] at h
+      cases hinc : Engine.increment_counter Profile.wrapping c.eng s.bb with
+      | none => simp [hinc] at h
+      | some e1 =>
+        simp only [hinc] at h
+        have hsl : (setSlice c.buf c.buflen (input.take (s.bb - c.buflen))).length = c.buf.length :=
+          Cx.Proofs.Blake2.setSlice_length _ _ _ (by simp; omega)
+        split at h
+        · cases h
+        · rename_i e2 rest hloop
+          have hrest := update_loop_rest s Profile.wrapping (by decide) _ _ _ _ _ (Nat.le_refl _) hloop
+          cases h
+          refine ⟨?_, by show 0 + rest.length ≤ _; omega⟩
+          show (setSlice _ 0 rest).length = _
+          rw [Cx.Proofs.Blake2.setSlice_length _ _ _ (by omega), hsl, hbl]
+    · simp only [hfill, if_false] at h
+      cases h
+      refine ⟨?_, by show c.buflen + input.length ≤ _; omega⟩
+      show (setSlice _ _ input).length = _
+      rw [Cx.Proofs.Blake2.setSlice_length _ _ _ (by omega), hbl]
+
+theorem ctx_reset_inv (c : Ctx UInt32) (n : Nat) (hi : Inv s c) : Inv s (Ctx.reset s c n) := by
+  refine ⟨?_, Nat.zero_le _⟩
+  show (zeroFrom c.buf 0).length = _
+  rw [Cx.Proofs.Blake2.zeroFrom_length _ _ (Nat.zero_le _), hi.1]
+
+theorem ctx_reset_with_key_inv (c c' : Ctx UInt32) (n : Nat) (key : Bytes) (hi : Inv s c)
+    (h : Ctx.reset_with_key s c n key = some c') : Inv s c' := by
+  have hbb := bb_eq
+  have hmk := maxKey_eq
+  unfold Ctx.reset_with_key at h
+  split at h
+  · cases h
+  · split at h
+    · cases h
+      have hzl : (zeroFrom c.buf 0).length = c.buf.length := Cx.Proofs.Blake2.zeroFrom_length _ _ (Nat.zero_le _)
+      refine ⟨?_, Nat.le_refl _⟩
+      show (setSlice _ 0 key).length = _
+      rw [Cx.Proofs.Blake2.setSlice_length _ _ _ (by have := hi.1; omega), hzl, hi.1]
+    · cases h
+      exact ⟨by simp [zeros], Nat.zero_le _⟩
+
+
+/-! ### `ContextDyn` -/
+
+/-- invariant of `ContextDyn`: the buffer invariant and `outlen ≤ MAX_OUTLEN` (asserted by `new`/`new_keyed`, never changed) -/
+def DynInv (d : ContextDyn UInt32) : Prop := Inv s d.ctx ∧ d.outlen ≤ s.maxOut
+
+theorem dyn_new_keyed_src_eq_model (n : Nat) (key : Bytes) : ContextDyn.new_keyed_src n key = ContextDyn.new_keyed s n key := by
+  unfold ContextDyn.new_keyed_src ContextDyn.new_keyed Ctx.new_keyed
+  simp only [consts_src_eq_model.1, consts_src_eq_model.2.1, consts_src_eq_model.2.2.1, Option.bind_eq_bind, Option.pure_def,
+    engine_new_src_eq_model]
+  by_cases h1 : n > 0
+  · by_cases h2 : n ≤ s.maxOut
+    · by_cases h3 : key.length ≤ s.maxKey
+      · simp only [h1, h2, h3, and_self, not_true_eq_false, if_false]
+        cases Engine.new s n key.length with
+        | none => rfl
+        | some eng =>
+          simp only [Option.bind_some]
+          by_cases hk : key.isEmpty = true
+          · simp [hk]
+          · have : copyInto (zeros s.bb) 0 key.length key = some (setSlice (zeros s.bb) 0 key) :=
+              copyInto_setSlice (by simp) (by rw [maxKey_eq] at h3; simp [zeros, bb_eq]; omega)
+            simp [hk, this]
+      · simp [h1, h2, h3]
+    · simp [h1, h2]
+  · simp [h1]
+
+theorem dyn_new_src_eq_model (n : Nat) : ContextDyn.new_src n = ContextDyn.new s n := by
+  unfold ContextDyn.new_src ContextDyn.new
+  simp only [consts_src_eq_model.2.1, dyn_new_keyed_src_eq_model, Option.bind_eq_bind, Option.pure_def]
+  by_cases h1 : n > 0 <;> by_cases h2 : n ≤ s.maxOut <;> simp [h1, h2]
+
+theorem dyn_update_loop_eq (fill : Nat) : ∀ (m n : Nat) (d : ContextDyn UInt32) (input : Bytes), input.length < m → input.length ≤ n →
+    whileLoop (ContextDyn.update_mut_src_while1 fill) m (d, input) =
+      (Ctx.update_loop s .wrapping n d.ctx.eng input).bind fun p => some ({ d with ctx := { d.ctx with eng := p.1 } }, p.2) := by
+  intro m
+  induction m with
+  | zero => intro n c input h; omega
+  | succ m ih =>
+    intro n d input hm hn
+    rw [whileLoop]
+    simp only [ContextDyn.update_mut_src_while1, consts_src_eq_model.1, consts_src_eq_model.2.2.2, engine_increment_counter_src_eq_model,
+      Option.bind_eq_bind, Option.pure_def]
+    by_cases hlen : input.length > s.bb
+    · have hbb := bb_eq
+      cases n with
+      | zero => omega
+      | succ n =>
+        rw [Ctx.update_loop]
+        simp only [hlen, if_true]
+        cases hinc : Engine.increment_counter Profile.wrapping d.ctx.eng s.bb with
+        | none => simp
+        | some e1 =>
+          simp only [Option.bind_some, slice_take (Nat.le_of_lt hlen), sliceFrom_eq (Nat.le_of_lt hlen)]
+          rw [ih n _ _ (by simp; omega) (by simp; omega)]
+    · simp only [hlen, if_false, Option.bind_some]
+      cases n with
+      | zero => simp [Ctx.update_loop]
+      | succ n => simp [Ctx.update_loop, hlen]
+
+theorem dyn_update_mut_src_eq_model (d : ContextDyn UInt32) (input : Bytes) (hi : DynInv d) :
+    ContextDyn.update_mut_src d input = ContextDyn.update_mut s .wrapping d input := by
+  obtain ⟨⟨hbl, hle⟩, _⟩ := hi
+  have hbb := bb_eq
+  unfold ContextDyn.update_mut_src ContextDyn.update_mut Ctx.update_mut
+  simp only [consts_src_eq_model.1, consts_src_eq_model.2.2.2, engine_increment_counter_src_eq_model, Option.bind_eq_bind,
+    Option.pure_def]
+  by_cases he : input.isEmpty = true
+  · simp [he]
+  · simp only [he, if_false, usub_le hle, Option.bind_some, Bool.false_eq_true]
+    by_cases hfill : input.length > s.bb - d.ctx.buflen
+    · simp only [hfill, if_true]
+      have h1 : slice input 0 (s.bb - d.ctx.buflen) = some (input.take (s.bb - d.ctx.buflen)) := slice_take (Nat.le_of_lt hfill)
+      have h2 : usizechk (d.ctx.buflen + (s.bb - d.ctx.buflen)) = some (d.ctx.buflen + (s.bb - d.ctx.buflen)) := usizechk_lt (by omega)
+      have h3 : copyInto d.ctx.buf d.ctx.buflen (d.ctx.buflen + (s.bb - d.ctx.buflen)) (input.take (s.bb - d.ctx.buflen)) =
+          some (setSlice d.ctx.buf d.ctx.buflen (input.take (s.bb - d.ctx.buflen))) :=
+        copyInto_setSlice (by simp; omega) (by simp; omega)
+      simp only [h1, h2, h3, Option.bind_some]
+      cases hinc : Engine.increment_counter Profile.wrapping d.ctx.eng s.bb with
+      | none => simp
+      | some e1 =>
+        have hsl : (setSlice d.ctx.buf d.ctx.buflen (input.take (s.bb - d.ctx.buflen))).length = d.ctx.buf.length :=
+          Cx.Proofs.Blake2.setSlice_length _ _ _ (by simp; omega)
+        simp only [Option.bind_some,
+          slice_take (show s.bb ≤ (setSlice d.ctx.buf d.ctx.buflen (input.take (s.bb - d.ctx.buflen))).length by omega),
+          sliceFrom_eq (Nat.le_of_lt hfill)]
+        rw [dyn_update_loop_eq (s.bb - d.ctx.buflen) _ (input.drop (s.bb - d.ctx.buflen)).length _ _ (by omega) (Nat.le_refl _)]
+        cases hloop : Ctx.update_loop s Profile.wrapping (input.drop (s.bb - d.ctx.buflen)).length
+            (Engine.compress s e1 (List.take s.bb (setSlice d.ctx.buf d.ctx.buflen (input.take (s.bb - d.ctx.buflen)))) LastBlock.No)
+            (input.drop (s.bb - d.ctx.buflen)) with
+        | none => simp
+        | some p =>
+          obtain ⟨e2, rest⟩ := p
+          have hrest := update_loop_rest s Profile.wrapping (by decide) _ _ _ _ _ (Nat.le_refl _) hloop
+          have h5 : usizechk (0 + rest.length) = some (0 + rest.length) := usizechk_lt (by omega)
+          have h6 : copyInto (setSlice d.ctx.buf d.ctx.buflen (input.take (s.bb - d.ctx.buflen))) 0 (0 + rest.length) rest =
+              some (setSlice (setSlice d.ctx.buf d.ctx.buflen (input.take (s.bb - d.ctx.buflen))) 0 rest) :=
+            copyInto_setSlice rfl (by omega)
+          simp only [Option.bind_some, h5, h6]
+    · simp only [hfill, if_false, Option.bind_some]
+      have h2 : usizechk (d.ctx.buflen + input.length) = some (d.ctx.buflen + input.length) := usizechk_lt (by omega)
+      have h3 : copyInto d.ctx.buf d.ctx.buflen (d.ctx.buflen + input.length) input = some (setSlice d.ctx.buf d.ctx.buflen input) :=
+        copyInto_setSlice rfl (by omega)
+      simp only [h2, h3, Option.bind_some]
+
+
+theorem dyn_update_src_eq_model (d : ContextDyn UInt32) (input : Bytes) (hi : DynInv d) :
+    ContextDyn.update_src d input = ContextDyn.update s .wrapping d input := by
+  unfold ContextDyn.update_src ContextDyn.update
+  rw [dyn_update_mut_src_eq_model d input hi]
+
+theorem dyn_internal_final_src_eq_model (d : ContextDyn UInt32) (hi : DynInv d) :
+    ContextDyn.internal_final_src d = (Ctx.internal_final s .wrapping d.ctx).bind fun x => some { d with ctx := x } := by
+  obtain ⟨⟨hbl, hle⟩, _⟩ := hi
+  have hbb := bb_eq
+  unfold ContextDyn.internal_final_src Ctx.internal_final
+  simp only [consts_src_eq_model.1, engine_increment_counter_src_eq_model, Option.bind_eq_bind, Option.pure_def]
+  have hw : Cx.Spec.Blake2.Word.bits UInt32 = 32 := rfl
+  rw [hw]
+  cases hinc : Engine.increment_counter Profile.wrapping d.ctx.eng (d.ctx.buflen % 2 ^ 32) with
+  | none => rfl
+  | some e1 =>
+    have hzl : (zeroFrom d.ctx.buf d.ctx.buflen).length = d.ctx.buf.length := Cx.Proofs.Blake2.zeroFrom_length _ _ (by omega)
+    simp only [Option.bind_some, slice_to_end (show d.ctx.buflen ≤ d.ctx.buf.length by omega),
+      copyInto_zeroFrom (show d.ctx.buflen ≤ d.ctx.buf.length by omega) rfl,
+      slice_take (show s.bb ≤ (zeroFrom d.ctx.buf d.ctx.buflen).length by omega),
+      slice_take (show 32 ≤ (zeroFrom d.ctx.buf d.ctx.buflen).length by omega)]
+    have hlen : ((Engine.compress s e1 (List.take s.bb (zeroFrom d.ctx.buf d.ctx.buflen)) LastBlock.Yes).h.toList.flatMap u32le).length = 32 := by
+      rw [← toLE_eq_u32le, Cx.Proofs.Blake2.hbytes_length]; rfl
+    have hw8 : write_u32v_le (List.take 32 (zeroFrom d.ctx.buf d.ctx.buflen))
+        (Engine.compress s e1 (List.take s.bb (zeroFrom d.ctx.buf d.ctx.buflen)) LastBlock.Yes).h.toList =
+        some ((Engine.compress s e1 (List.take s.bb (zeroFrom d.ctx.buf d.ctx.buflen)) LastBlock.Yes).h.toList.flatMap u32le) := by
+      unfold write_u32v_le
+      rw [if_pos (by simp; omega)]
+    simp only [hw8, Option.bind_some]
+    rw [copyInto_setSlice (by rw [hlen]) (by rw [hlen]; omega)]
+    rfl
+
+theorem dyn_reset_src_eq_model (d : ContextDyn UInt32) : ContextDyn.reset_src d = some (ContextDyn.reset s d) := by
+  unfold ContextDyn.reset_src ContextDyn.reset Ctx.reset
+  have hz := zero_all d.ctx.buf
+  rw [slice_to_end (Nat.zero_le _)] at hz
+  simp only [Option.bind_some] at hz
+  simp only [engine_reset_src_eq_model, Option.bind_eq_bind, Option.bind_some, Option.pure_def, slice_to_end (Nat.zero_le _), hz]
+
+theorem dyn_reset_with_key_src_eq_model (d : ContextDyn UInt32) (key : Bytes) (hi : DynInv d) :
+    ContextDyn.reset_with_key_src d key = ContextDyn.reset_with_key s d key := by
+  obtain ⟨⟨hbl, hle⟩, _⟩ := hi
+  have hbb := bb_eq
+  unfold ContextDyn.reset_with_key_src ContextDyn.reset_with_key Ctx.reset_with_key
+  have hz := zero_all d.ctx.buf
+  rw [slice_to_end (Nat.zero_le _)] at hz
+  simp only [Option.bind_some] at hz
+  simp only [engine_reset_src_eq_model, Option.bind_eq_bind, Option.bind_some, Option.pure_def,
+    slice_to_end (Nat.zero_le _), hz, consts_src_eq_model.1, consts_src_eq_model.2.2.1]
+  by_cases hk : key.length ≤ s.maxKey
+  · simp only [hk, not_true_eq_false, if_false]
+    by_cases hke : key.isEmpty = true
+    · simp [hke]
+    · have hzl : (zeroFrom d.ctx.buf 0).length = d.ctx.buf.length := Cx.Proofs.Blake2.zeroFrom_length _ _ (by omega)
+      have : copyInto (zeroFrom d.ctx.buf 0) 0 key.length key = some (setSlice (zeroFrom d.ctx.buf 0) 0 key) :=
+        copyInto_setSlice (by simp) (by rw [maxKey_eq] at hk; omega)
+      simp [hke, this]
+  · simp [hk]
+
+theorem dyn_finalize_at_src_eq_model (d : ContextDyn UInt32) (out : Bytes) (hi : DynInv d) :
+    ContextDyn.finalize_at_src d out = ContextDyn.finalize_at s .wrapping d out.length := by
+  have hmo := maxOut_eq
+  unfold ContextDyn.finalize_at_src ContextDyn.finalize_at Ctx.finalize_at
+  simp only [dyn_internal_final_src_eq_model d hi, Option.bind_eq_bind, Option.bind_some, Option.pure_def]
+  by_cases hl : out.length = d.outlen
+  · simp only [hl, not_true_eq_false, if_false, ne_eq]
+    cases hf : Ctx.internal_final s Profile.wrapping d.ctx with
+    | none => rfl
+    | some c' =>
+      have hp := ctx_finalize_prefix d.ctx out hi.1 (by have := hi.2; omega) c' hf
+      rw [hl] at hp
+      simp only [Option.bind_some]
+      cases hs : slice c'.buf 0 d.outlen with
+      | none => simp [hs] at hp
+      | some t3 =>
+        simp only [hs, Option.bind_some] at hp
+        simp only [Option.bind_some, hp]
+  · simp [hl]
+
+theorem dyn_finalize_reset_at_src_eq_model (d : ContextDyn UInt32) (out : Bytes) (hi : DynInv d) :
+    ContextDyn.finalize_reset_at_src d out = ContextDyn.finalize_reset_at s .wrapping d out.length := by
+  have hmo := maxOut_eq
+  unfold ContextDyn.finalize_reset_at_src ContextDyn.finalize_reset_at Ctx.finalize_reset_at
+  simp only [dyn_internal_final_src_eq_model d hi, Option.bind_eq_bind, Option.bind_some, Option.pure_def]
+  by_cases hl : out.length = d.outlen
+  · simp only [hl, not_true_eq_false, if_false, ne_eq]
+    cases hf : Ctx.internal_final s Profile.wrapping d.ctx with
+    | none => rfl
+    | some c' =>
+      have hp := ctx_finalize_prefix d.ctx out hi.1 (by have := hi.2; omega) c' hf
+      rw [hl] at hp
+      simp only [Option.bind_some]
+      cases hs : slice c'.buf 0 d.outlen with
+      | none => simp [hs] at hp
+      | some t3 =>
+        simp only [hs, Option.bind_some] at hp
+        simp only [Option.bind_some, hp, dyn_reset_src_eq_model]
+        rfl
+  · simp [hl]
+
+theorem dyn_finalize_reset_with_key_at_src_eq_model (d : ContextDyn UInt32) (key out : Bytes) (hi : DynInv d) :
+    ContextDyn.finalize_reset_with_key_at_src d key out = ContextDyn.finalize_reset_with_key_at s .wrapping d key out.length := by
+  have hmo := maxOut_eq
+  unfold ContextDyn.finalize_reset_with_key_at_src ContextDyn.finalize_reset_with_key_at Ctx.finalize_reset_with_key_at
+  simp only [dyn_internal_final_src_eq_model d hi, Option.bind_eq_bind, Option.bind_some, Option.pure_def]
+  by_cases hl : out.length = d.outlen
+  · simp only [hl, not_true_eq_false, if_false, ne_eq]
+    cases hf : Ctx.internal_final s Profile.wrapping d.ctx with
+    | none => rfl
+    | some c' =>
+      have hp := ctx_finalize_prefix d.ctx out hi.1 (by have := hi.2; omega) c' hf
+      have hi' := internal_final_shape d.ctx c' hi.1 hf
+      rw [hl] at hp
+      simp only [Option.bind_some]
+      cases hs : slice c'.buf 0 d.outlen with
+      | none => simp [hs] at hp
+      | some t3 =>
+        simp only [hs, Option.bind_some] at hp
+        have hd' : DynInv { d with ctx := c' } := ⟨hi', hi.2⟩
+        simp only [Option.bind_some, hp, dyn_reset_with_key_src_eq_model _ key hd']
+        unfold ContextDyn.reset_with_key
+        cases Ctx.reset_with_key s c' d.outlen key <;> rfl
+  · simp [hl]
+
+theorem dyn_output_bits_src_eq_model (d : ContextDyn UInt32) (hi : DynInv d) :
+    ContextDyn.output_bits_src d = some (ContextDyn.output_bits d) := by
+  have hmo := maxOut_eq
+  unfold ContextDyn.output_bits_src ContextDyn.output_bits
+  have := hi.2
+  simp [usizechk_lt (show d.outlen * 8 < 2 ^ 64 by omega)]
+
+
+theorem dyn_new_keyed_inv (n : Nat) (key : Bytes) (d : ContextDyn UInt32) (h : ContextDyn.new_keyed s n key = some d) : DynInv d := by
+  unfold ContextDyn.new_keyed at h
+  cases hc : Ctx.new_keyed s n key with
+  | none => simp [hc] at h
+  | some c =>
+    simp only [hc, Option.some.injEq] at h
+    subst h
+    refine ⟨ctx_new_keyed_inv n key c hc, ?_⟩
+    show n ≤ s.maxOut
+    unfold Ctx.new_keyed at hc
+    split at hc
+    · cases hc
+    · rename_i hn; simp at hn; exact hn.2
+
+theorem dyn_update_mut_inv (d d' : ContextDyn UInt32) (input : Bytes) (hi : DynInv d)
+    (h : ContextDyn.update_mut s .wrapping d input = some d') : DynInv d' := by
+  unfold ContextDyn.update_mut at h
+  cases hc : Ctx.update_mut s .wrapping d.ctx input with
+  | none => simp [hc] at h
+  | some c =>
+    simp only [hc, Option.some.injEq] at h
+    subst h
+    exact ⟨ctx_update_mut_inv d.ctx c input hi.1 hc, hi.2⟩
+
+theorem dyn_reset_inv (d : ContextDyn UInt32) (hi : DynInv d) : DynInv (ContextDyn.reset s d) :=
+  ⟨ctx_reset_inv d.ctx d.outlen hi.1, hi.2⟩
+
+theorem dyn_reset_with_key_inv (d d' : ContextDyn UInt32) (key : Bytes) (hi : DynInv d)
+    (h : ContextDyn.reset_with_key s d key = some d') : DynInv d' := by
+  unfold ContextDyn.reset_with_key at h
+  cases hc : Ctx.reset_with_key s d.ctx d.outlen key with
+  | none => simp [hc] at h
+  | some c =>
+    simp only [hc, Option.some.injEq] at h
+    subst h
+    exact ⟨ctx_reset_with_key_inv d.ctx c d.outlen key hi.1 hc, hi.2⟩
+
+theorem alg_new_src_eq_model (BITS : Nat) : Algorithm.new_src BITS = Context.new s BITS := by
+  unfold Algorithm.new_src
+  rw [ctx_new_src_eq_model]
+
+theorem alg_new_keyed_src_eq_model (BITS : Nat) (key : Bytes) : Algorithm.new_keyed_src BITS key = Context.new_keyed s BITS key := by
+  unfold Algorithm.new_keyed_src
+  rw [ctx_new_keyed_src_eq_model]
+
+end S
+
+end Blake2Part
 
 end Cx.Proofs.GlueSponge
